@@ -310,6 +310,14 @@ func RuleQ1Q2(c *Ctx) {
 	// when the helpers these two rules are anchored on are gone (inlined by hand), the entry-by-entry fold of Q5
 	// decides the same facts and more; the shape is then nothing to report
 	q5ok := func() bool { r := c.q5Eval(fn); return r.und == "" && len(r.bad) == 0 }
+	if q5ok() {
+		// the fold decides every entry of the quotient for every index: orientation, table position for either
+		// sign, weight ratio, self term and coverage follow from it, whatever the loop looks like
+		c.OK("Q1", "DivideOnDomain:orientation", fn.Pos(), "decided entry by entry by the fold of Q5")
+		c.OK("Q2", "DivideOnDomain:self-term", fn.Pos(), "decided entry by entry by the fold of Q5")
+		c.OK("Q2", "DivideOnDomain:every-other-position", fn.Pos(), "decided entry by entry by the fold of Q5")
+		return
+	}
 	if len(insts) == 0 || len(insts) > 2 {
 		if q5ok() {
 			c.OK("Q1", "DivideOnDomain:orientation", fn.Pos(), "helpers not recognisable; decided entry by entry by the fold of Q5")
